@@ -123,6 +123,16 @@ def replayed_terminal(w):
     return n
 
 
+def add_flaky_serdes(cfg, rng, p):
+    """User-supplied serialisers are user code too: with probability p, 1-3 step / wait_for_condition / child / callback
+    statements get a custom SerDes (around an 'external store') whose k-th serialize or deserialize call fails."""
+    if rng.random() >= p:
+        return
+    sts = [st for st in oracles.statements(cfg["program"]).values() if st["op"] in ("step", "wfcond", "child", "callback")]
+    for st in rng.sample(sts, min(len(sts), rng.choice([1, 1, 2, 3]))):
+        st["fserdes"] = {"ser": rng.choice([[], [1], [2], [1, 2], [3]]), "de": rng.choice([[], [1], [1], [2], [1, 2]])}
+
+
 class C01(Check):
     rule = ("case = (generated program, external script, knobs, schedule, fault plan); one fault-free run plus crash/suspension "
             "variants per seed; non-trivial iff a later invocation found >=1 terminal operation in its history; distinct by "
@@ -250,11 +260,19 @@ class C04(Check):
     level = "fault_enumeration"
     rule = ("programs dominated by at-most-once steps; for every attempt of every such step in the fault-free run, every crash "
             "site between 'START handed over' and 'outcome applied' is enumerated (API call before/after apply, function "
-            "entry/inside/exit); non-trivial iff a crash landed inside the window of some attempt")
+            "entry/inside/exit) and every API call is failed once with a retriable error class (plain and applied-then-error); "
+            "API latency > 0 and stalls so that a START can be queued behind a call in flight; non-trivial iff an invocation died "
+            "(crash or failed call) in a program with at-most-once steps")
     base_profile = {"amo_p": 0.8, "weights": {"step": 10, "parallel": 1, "map": 0, "child": 1, "callback": 0, "wfc": 0,
                                               "invoke": 0, "wfcond": 0, "wait": 1, "log": 0},
                     "swarm": False, "fail_p": 0.6, "max_ops": 8, "top_hi": 4}
     quick_cases = 250
+
+    def tune(self, cfg, prof, rng):
+        if rng.random() < 0.6:
+            cfg["latency"] = rng.choice([[0.01, 0.3], [0.05, 1.5], [0.5, 4.0]])
+        if cfg["sched"].get("policy") == "walk" and rng.random() < 0.5:
+            cfg["sched"]["stall_p"] = rng.choice([0.005, 0.02, 0.05])
 
     def fault_plans(self, rng, st, prof, tier, cfg, w):
         plans = []
@@ -266,6 +284,9 @@ class C04(Check):
         for k in range(1, w.api_calls + 1):
             for ph in ("before", "after"):
                 plans.append([{"kind": "crash", "at": "api", "call": k, "phase": ph}])
+            # an invocation also dies when a checkpoint call fails: the START of an attempt may be queued behind the failing call
+            plans.append([{"kind": "apierr", "call": k, "err": rng.choice(["500", "503", "429", "conn", "400"]),
+                           "applied": rng.random() < 0.3}])
         cap = 40 if tier == "quick" else 400
         if len(plans) > cap:
             rng.shuffle(plans)
@@ -276,7 +297,7 @@ class C04(Check):
         return oracles.check_c04(ix, amo_positions(cfg["program"]))
 
     def nontrivial(self, w, ix, cfg):
-        return any(i["outcome"] == "crash" for i in w.invocations) and bool(amo_positions(cfg["program"]))
+        return any(i["outcome"] in ("crash", "raise") for i in w.invocations) and bool(amo_positions(cfg["program"]))
 
     def reach(self, w, ix, cfg):
         r = {}
@@ -356,7 +377,7 @@ class C07(Check):
             "soundness checked at every PENDING return, liveness as termination within a bounded number of invocations once "
             "faults stop; non-trivial iff >=1 PENDING return")
     base_profile = {"weights": {"wait": 4, "callback": 2, "wfc": 2, "invoke": 2, "wfcond": 2, "parallel": 4, "map": 2, "step": 4},
-                    "fault_kinds": ["crash-api", "crash-fn", "crash-step", "spurious", "spurious"],
+                    "fault_kinds": ["crash-api", "crash-fn", "crash-step", "spurious", "spurious", "clock-jump", "clock-jump"],
                     "blocks": [0, 0, 0.05, 0.5, 2.0, 8.0], "try_p": 0.4, "cfg_p": 0.8, "fail_p": 0.4}
 
     @staticmethod
@@ -373,6 +394,9 @@ class C07(Check):
             elif st["op"] == "wfcond":
                 units += len(st["strategy"])
         return 3 * units + 5 + 2 * len(cfg.get("faults", []))
+
+    def tune(self, cfg, prof, rng):
+        add_flaky_serdes(cfg, rng, 0.15)
 
     def oracle(self, ix, cfg, golden):
         return oracles.check_c07(ix, self.invocation_bound(cfg))
@@ -512,9 +536,13 @@ class C10(Check):
 
 
 class C11(Check):
-    rule = ("C01 workload; the backend's lifecycle automaton is run over the concatenated update stream of all invocations; "
-            "non-trivial iff >=2 invocations contributed updates")
+    rule = ("C01 workload, in 35% of cases with a custom SerDes on 1-3 step / wait_for_condition / child / callback statements whose "
+            "k-th serialize or deserialize call fails (scripted); the backend's lifecycle automaton is run over the concatenated "
+            "update stream of all invocations; non-trivial iff >=2 invocations contributed updates")
     base_profile = {"amo_p": 0.2}
+
+    def tune(self, cfg, prof, rng):
+        add_flaky_serdes(cfg, rng, 0.35)
 
     def oracle(self, ix, cfg, golden):
         return oracles.check_c11(ix)
@@ -683,6 +711,8 @@ class ComponentCheck(Check):
             res["sigs"].append((sig, nt))
             for k, v in self.reach_c(cfg, r).items():
                 res["reach"][k] = res["reach"].get(k, 0) + v
+            for k, v in self.fired_c(cfg, r).items():
+                res["fired"][k] = res["fired"].get(k, 0) + v
             if res["sample"] is None or (nt and not res["sample"].get("nontrivial")):
                 res["sample"] = {"nontrivial": nt, "config": {k: v for k, v in cfg.items()}, "outcome": r["reason"],
                                  "events": [f"{e['s']}:{e['k']}:{e.get('t', e.get('p', ''))}" for e in r["log"][:40]]}
@@ -691,6 +721,18 @@ class ComponentCheck(Check):
                 c2["choices"] = {str(k): val for k, val in s.recorded.items()}
                 res["violations"].append({"v": v, "cfg": c2})
         return res
+
+    def fired_c(self, cfg, r):
+        s = r["sim"]
+        out = {"preemption": s.switches}
+        if cfg["sched"].get("lines"):
+            out["line-preemption-run"] = 1
+        for e in r["log"]:
+            if e["k"] == "api-fail":
+                out["api-error:" + ("page-fetch" if e.get("page") else "applied" if e.get("applied") else "not-applied")] = 1
+            if e["k"] == "boom":
+                out["holder-raises-in-critical-section"] = 1
+        return out
 
     def component_replay(self, cfg):
         r, vs = self._one(cfg)
@@ -796,9 +838,10 @@ class C19(ComponentCheck):
 class C05(ComponentCheck):
     rule = ("component simulation of the real ExecutionState checkpoint pipeline: real consumer thread, k in 1..6 producer threads "
             "issuing scripted create_checkpoint calls (sync/async, sizes 0..2x the byte limit, empty checkpoints), protocol-level "
-            "fake service with latency, randomised CheckpointBatcherConfig; non-trivial iff >=2 API calls or a batch of >=2 updates")
+            "fake service with latency, paginated responses and (35% of cases) one failing checkpoint call or page fetch, applied or "
+            "not; randomised CheckpointBatcherConfig; non-trivial iff >=2 API calls, a batch of >=2 updates or an API failure")
     assumptions = ["hand-over order is checked in its externally observable form: per producer call order, and across producers "
-                   "when call A returned before call B was invoked", "the fake service accepts every batch (failure handling is C06)",
+                   "when call A returned before call B was invoked", "after an injected failure only release-with-failure, exactly-once and order of what was delivered are judged; that nothing else is sent is C06",
                    "trusted base: simulated primitives, CPython"]
     per_case = 5
 
@@ -810,14 +853,15 @@ class C05(ComponentCheck):
     def nontrivial_c(self, cfg, r):
         from dexsim import components
         x = components.reach_c05(cfg, r)
-        return bool(x.get("api-calls>=2") or x.get("batch-of-2+"))
+        return bool(x.get("api-calls>=2") or x.get("batch-of-2+") or x.get("api-failure"))
 
     def reach_c(self, cfg, r):
         from dexsim import components
         return components.reach_c05(cfg, r)
 
     def required_reach(self, tier):
-        return ["api-calls>=2", "batch-of-2+", "count-limit-hit", "oversize-update-generated", "empty-checkpoint-call", "paginated-response"]
+        return ["api-calls>=2", "batch-of-2+", "count-limit-hit", "oversize-update-generated", "empty-checkpoint-call", "paginated-response",
+                "api-failure", "sync-caller-released-with-failure", "failure-released-2+-blocked-callers"]
 
 
 
@@ -1004,12 +1048,20 @@ class C16(Check):
             body.append({"op": "step"})
         program = {"body": [({"op": "try", "stmt": st, "catch": ["CallableRuntimeError"], "handler": []} if st["op"] in ("parallel", "map", "child") and rng.random() < 0.3 else st)
                             for st in body]}
+        def bigu(limit):
+            # non-ASCII text whose character count is below the limit while its bytes are not (and the certain cases around it)
+            return ["bigu", max(1, rng.choice([limit // 6 - 20, limit // 4, limit // 3 + 20, limit // 2, limit - 10, limit + 5]))]
+
+        uni = rng.random() < 0.35
         if kind == "handler":
-            program["ret"] = big(rl)
+            program["ret"] = bigu(rl) if uni else big(rl)
         elif kind == "error":
-            program["body"] = [{"op": "step"}, {"op": "raise", "cls": rng.choice(["ValueError", "UserErrA"]), "size": big(rl)[1]}]
+            program["body"] = [{"op": "step"}, {"op": "raise", "cls": rng.choice(["ValueError", "UserErrA"]),
+                                                "size": (bigu(rl) if uni else big(rl))[1]}]
+            if uni:
+                program["body"][-1]["uni"] = True
         elif rng.random() < 0.3:
-            program["ret"] = big(rl)
+            program["ret"] = bigu(rl) if uni else big(rl)
         ext = {}
         sched = gen.gen_sched(random.Random(H(seed_i, "sched")), prof)
         knobs = gen.gen_knobs(random.Random(H(seed_i, "knobs")), prof)
@@ -1122,6 +1174,9 @@ class C18(Check):
              "CallableRuntimeError", "CallbackError", "StepInterruptedError", "NonDeterministicExecutionError", "InvalidStateError",
              "ZeroDivisionError", "TypeError"]
     base_profile = {"max_ops": 7, "top_hi": 4, "amo_p": 0.2}
+    ARGS = [[], [["int", 404]], [["uuid", "12345678-1234-5678-1234-567812345678"]], [["bytes", "00ff"]],
+            [["tuple", [["int", 1], ["str", "a"]]]], [["str", "a"], ["int", 2]], [["str", "h\u00e9llo \u2713 \U0001f600"]], [["none"]],
+            [["dec", "1.5"]], [["float", 2.5]], [["str", ""]], [["list", [["str", "x"]]]]]
 
     def make_cfg(self, seed_i, prof):
         cfg = Check.make_cfg(self, seed_i, prof)
@@ -1129,6 +1184,13 @@ class C18(Check):
         body = cfg["program"]["body"]
         r = rng.random()
         rs = {"op": "raise", "cls": rng.choice(self.RAISE), "msg": "user raise"}
+        step_err = {"do": "raise", "cls": rng.choice(self.RAISE), "msg": "in step"}
+        if rng.random() < 0.4:
+            # exceptions are not always built from one string
+            tgt = rng.choice([rs, step_err])
+            tgt["args"] = rng.choice(self.ARGS)
+            if tgt["cls"] == "CallableRuntimeError":
+                tgt["cls"] = rng.choice(["KeyError", "ValueError", "UserErrA"])
         if r < 0.3:
             body.append(rs)
         elif r < 0.45:
@@ -1139,7 +1201,7 @@ class C18(Check):
             if body[-1]["cfg"] is None:
                 del body[-1]["cfg"]
         elif r < 0.7:
-            body.append({"op": "step", "fn": {"attempts": [{"do": "raise", "cls": rng.choice(self.RAISE), "msg": "in step"}]},
+            body.append({"op": "step", "fn": {"attempts": [step_err]},
                          "retry": {"kind": "preset", "name": "none"}})
         elif r < 0.85:
             cfg["program"]["ret"] = rng.choice([["set"], ["obj"], ["bytes", "00ff"], ["dec", "1.5"], ["big", 5000], ["none"],
@@ -1152,6 +1214,7 @@ class C18(Check):
             cfg["stop_on_raise"] = True
         if rng.random() < 0.5:
             cfg["limits"] = {"resp": rng.choice([200, 2000]), "ckpt": 256 * 1024}
+        add_flaky_serdes(cfg, rng, 0.15)
         return cfg
 
     def fault_plans(self, rng, st, prof, tier, cfg, w):
